@@ -381,3 +381,70 @@ def r20(text):
         text = text[:rs] + rep + text[c + 1:]
         n += 1
     return text, n
+
+
+LITS = {}   # name -> (literal text, bytes) collected by R22 during one extraction
+
+
+@rule("R22", "Byte-string literal `b\"..\"` -> call of a generated constant function `crate::lit::b_<hex>()` whose body is the "
+             "same literal and whose `ensures` spells its bytes (generated from the literal's own token): Verus knows the "
+             "length but not the contents of byte-string literals; the rewrite only adds the missing fact.")
+def r22(text):
+    toks = tokenize(text)
+    out, last, n = [], 0, 0
+    for t in toks:
+        if t.kind == "str" and t.text.startswith('b"'):
+            bs = decode_bytes_literal(t.text)
+            name = "b_" + ("".join("%02x" % b for b in bs) or "empty")
+            LITS[name] = (t.text, bs)
+            out.append(text[last:t.start])
+            out.append("crate::lit::%s()" % name)
+            last = t.end
+            n += 1
+    out.append(text[last:])
+    return "".join(out), n
+
+
+def lits_module():
+    lines = ["pub mod lit {", "    use vstd::prelude::*;"]
+    for name, (lit, bs) in sorted(LITS.items()):
+        lines.append("    #[verifier::external_body] pub fn %s() -> (r: &'static [u8]) ensures r@ == %s { %s }" % (name, seq_of(bs), lit))
+    lines.append("}")
+    return "\n".join(lines)
+
+
+@rule("R13", "Inner `const ERR` items declared in two blocks of one function renamed `ERR1`, `ERR2` (with their uses in the "
+             "same block): Verus reports 'duplicate specification' for same-named inner consts; `&str` gets its 'static.")
+def r13(text):
+    n = 0
+    k = 0
+    out = text
+    pos = 0
+    while True:
+        m = re.search(r"\bconst\s+ERR\s*:\s*&(?:'static\s+)?str\s*=", out[pos:])
+        if not m:
+            break
+        k += 1
+        start = pos + m.start()
+        # the enclosing block ends at the matching '}' of the innermost '{' before start
+        depth, i = 0, start
+        while i < len(out):
+            if out[i] == "{":
+                depth += 1
+            elif out[i] == "}":
+                if depth == 0:
+                    break
+                depth -= 1
+            i += 1
+        blk = out[start:i]
+        blk2 = re.sub(r"\bERR\b", "ERR%d" % k, blk)
+        blk2 = re.sub(r"(const\s+ERR%d\s*:\s*)&(?:'static\s+)?str" % k, r"\1&'static str", blk2)
+        out = out[:start] + blk2 + out[i:]
+        pos = start + len(blk2)
+        n += 1
+    return out, n
+
+
+@rule("T_pubfields", "Struct fields made `pub` (visibility only, so that contracts may mention them).")
+def t_pubfields(text):
+    return re.subn(r"(?m)^(\s+)(?!pub\b)(\w+\s*:)", r"\1pub \2", text)
